@@ -1169,6 +1169,11 @@ struct Engine {
     const bool possible = sa <= I2::limit() && sq <= I::limit();
     set_op(dir ? "swap2(P,Q)" : "swap2(Q,P)", st(a) + "|" + state_class<Vec2>(q.prev), possible ? (sa == sq ? "eq" : sa < sq ? "lt" : "gt") : "impossible",
            fmt("P%d(size %ju) <-> Q%d(size %ju)", ai, sa, qi, sq));
+    // buffer exchange expected (C07): both heap-backed, same allocator type, each capacity representable in the other's size_type
+    const bool expect_handover = possible && !I::kFixed && !I2::kFixed && std::is_same<typename I::alloc, typename I2::alloc>::value && !a.prev.inl && a.prev.cap > 0 && !q.prev.inl &&
+                                 q.prev.cap > 0 && a.prev.cap <= static_cast<uintmax_t>(std::numeric_limits<typename I2::size_type>::max()) &&
+                                 q.prev.cap <= static_cast<uintmax_t>(std::numeric_limits<SizeT>::max());
+    if (expect_handover) { oi.ho_dst[0] = ai; oi.ho_src[0] = NP + qi; oi.ho_dst[1] = NP + qi; oi.ho_src[1] = ai; }
     if (dir) window([&] { a.obj->swap2(*q.obj); });
     else window([&] { q.obj->swap2(*a.obj); });
     if (possible) {
